@@ -4,6 +4,7 @@ import (
 	"encoding/json"
 	"fmt"
 	"net/url"
+	"reflect"
 	"sort"
 	"strings"
 
@@ -25,6 +26,7 @@ type expCase struct {
 	Opts           expOpts                `json:"opts"`
 	FailLoads      []string               `json:"fail_loads,omitempty"` // URLs the loader refuses
 	Garble         bool                   `json:"garble,omitempty"`     // the refused URLs are answered with a truncated body instead of an error
+	Program        bool                   `json:"program,omitempty"`    // the root is touched up the way a program builds it: boolean-or-schema unions that hold a schema have Allows == false
 	Choices        []int                  `json:"choices,omitempty"`    // explorer choices (map orders) of the failing execution
 	MapBound       int                    `json:"map_bound"`            // map-order deviations explored when enumerating
 	noGlobalLoader bool                   // do not install the loader as the package-level PathLoader (concurrent harnesses)
@@ -94,6 +96,9 @@ func runExpandSpec(c *expCase, budget int) (o expObs) {
 	if err := json.Unmarshal(c.Docs[c.Root], &sw); err != nil {
 		o.Err = "root does not decode: " + err.Error()
 		return
+	}
+	if c.Program {
+		asBuiltByAProgram(reflect.ValueOf(&sw))
 	}
 	opts := &spec.ExpandOptions{RelativeBase: c.Root, SkipSchemas: c.Opts.Skip, ContinueOnError: c.Opts.Cont,
 		AbsoluteCircularRef: c.Opts.Abs, PathLoader: c.loader(&o.Loads)}
@@ -282,4 +287,44 @@ func exploreExpand(c *expCase, budget int, mapBound int, visit func(o expObs, ch
 	var o expObs
 	ex.Explore(func() { o = runExpandSpec(c, budget) }, func(tr []verifrt.Point) { visit(o, choicesOf(tr)) })
 	return ex.Executions, ex.Points
+}
+
+// asBuiltByAProgram walks a freshly decoded value and leaves every boolean-or-schema union that holds a schema
+// the way `&spec.SchemaOrBool{Schema: s}` makes it (Allows false: the decoder sets it, a program need not).
+func asBuiltByAProgram(v reflect.Value) {
+	switch v.Kind() {
+	case reflect.Ptr:
+		if v.IsNil() {
+			return
+		}
+		if sob, ok := v.Interface().(*spec.SchemaOrBool); ok && sob.Schema != nil {
+			sob.Allows = false
+		}
+		asBuiltByAProgram(v.Elem())
+	case reflect.Struct:
+		for i := 0; i < v.NumField(); i++ {
+			if v.Type().Field(i).PkgPath == "" {
+				asBuiltByAProgram(v.Field(i))
+			}
+		}
+	case reflect.Slice:
+		for i := 0; i < v.Len(); i++ {
+			asBuiltByAProgram(v.Index(i).Addr())
+		}
+	case reflect.Map:
+		// map values are not addressable: rebuild the entries whose value changes
+		for _, k := range v.MapKeys() {
+			e := v.MapIndex(k)
+			if e.Kind() == reflect.Struct || e.Kind() == reflect.Ptr {
+				cp := reflect.New(e.Type()).Elem()
+				cp.Set(e)
+				if cp.Kind() == reflect.Ptr {
+					asBuiltByAProgram(cp)
+				} else {
+					asBuiltByAProgram(cp.Addr())
+				}
+				v.SetMapIndex(k, cp)
+			}
+		}
+	}
 }
